@@ -497,16 +497,3 @@ def dist_c13(cases, results):
             d["pending_surfaced"] += sum(1 for x in tr if x[2] == "P")
     return d
 
-
-def finish_as_other(vlib, explanation):
-    """vlib.standard_check writes evidence through vlib.finish; for a property whose main theorem
-    is shipped as `_partial` the evidence level is `other` and carries an explanation (wrapper
-    instead of editing the shared tools/vlib.py)."""
-    orig = vlib.finish
-
-    def fin(ctx, level, coverage, assumptions, extra=None):
-        coverage = dict(coverage)
-        coverage["explanation"] = explanation
-        return orig(ctx, "other", coverage, assumptions, extra)
-
-    vlib.finish = fin
